@@ -194,6 +194,20 @@ pub fn parse_pipeline(def: &ast::PipelineDefinition, context: &mut Context) -> T
         assert!(gpo.depth_target_format.is_none());
     }
 
+    // Pipelines are selected by name so each name can only be used once
+    if context
+        .module
+        .pipelines
+        .iter()
+        .any(|existing| existing.name.node == pipeline.name.node)
+    {
+        return Err(TyperError::ValueAlreadyDefined(
+            pipeline.name.clone(),
+            ErrorType::Unknown,
+            ErrorType::Unknown,
+        ));
+    }
+
     context.module.pipelines.push(pipeline);
 
     Ok(())
